@@ -10,6 +10,8 @@ import SasLexer.Spec.C11
 import SasLexer.Spec.C20
 import SasLexer.Spec.Pairs
 import SasLexer.Spec.Grammar
+import SasLexer.Properties.C04
+import SasLexer.Properties.C17
 open SasLexer
 
 def srcOfHexLine (line : String) : Option (List Char) := charsOfHex line.trimAscii.toString
@@ -53,6 +55,16 @@ def parseNats (s : String) : Option (List Nat) :=
 
 def checkLine (line : String) : String :=
   match line.splitOn "\t" with
+  | ["LINEWF", hex, dump] =>
+    -- hypothesis of the pure C04 theorem (`C04_of_lineWF`), evaluated on an implementation dump
+    match charsOfHex hex, parseDump dump with
+    | some s, some d => if lineWFB s ⟨d.lines, d.toks, d.lits⟩ then "1" else "0"
+    | _, _ => "badinput"
+  | ["SIDEOK", dbg, sep, hex] =>
+    -- side condition of the kernel shift theorem (`C17_model_partial`), monitored on the model run
+    match charsOfHex hex with
+    | some s => if lexSideOk { debug := dbg == "1", macroSep := sep == "1" } s then "1" else "0"
+    | none => "badinput"
   | ["C20", hex, bytesHex] =>
     match charsOfHex hex, bytesOfHex bytesHex.toList with
     | some s, some b => fmtVerdict (Spec.C20 s b)
